@@ -474,7 +474,7 @@ func TestVerif_C34(t *testing.T) {
 	}
 	defer os.RemoveAll(root)
 
-	depth := vmc.Pick(r, 2, 3)
+	depth := vmc.Pick(r, 2, 4)
 	r.Info["identity_chain_depth"] = depth
 	scenarios := []c34Scenario{
 		{Name: "first-start-auto-id"},
